@@ -44,6 +44,9 @@ MechCov(i, j, den) == RDiv(RSub(MechCorr(i, j), RMul(MechMean(i), MechMean(j))),
 Count(t) == Cardinality({k \in 1..N : shots[k] = t})
 Seen == {shots[k] : k \in 1..N}
 ParityTally(S) == <<Cardinality({k \in 1..N : Eig(S, shots[k]) = 1}), Cardinality({k \in 1..N : Eig(S, shots[k]) = -1})>>
+\* tallies of a PAIR of terms: shots on which the two terms have equal / different parity (definition), and the
+\* mechanism |parity1 - parity2| of get_parities_from_measurements; both are the tally of the product term
+PairTallyDef(S, T) == <<Cardinality({k \in 1..N : Eig(S, shots[k]) = Eig(T, shots[k])}), Cardinality({k \in 1..N : Eig(S, shots[k]) # Eig(T, shots[k])})>>
 
 Init == shots = <<>> /\ op \in Operators
 AddShot(t) == Len(shots) < MaxShots /\ shots' = Append(shots, t) /\ UNCHANGED op
@@ -58,6 +61,12 @@ MechanismEqualsDefinition == N >= 1 =>
 ConstantContributesCoefficient == N >= 1 => \A i \in Idx : op[i].sup = {} => DefMean(i) = op[i].c
 CountsSumToShots == ISum([k \in 1..N |-> 1]) = N /\ (N >= 1 => RSum([k \in 1..N |-> RNorm(1, N)]) = R(1))
 TalliesSumToShots == \A S \in SUBSET Qubits : ParityTally(S)[1] + ParityTally(S)[2] = N
+PairTallyMech(S, T) == LET diff == [k \in 1..N |-> LET d == ParityEven(S, shots[k]) - ParityEven(T, shots[k]) IN IF d < 0 THEN -d ELSE d] IN
+   <<ISum([k \in 1..N |-> 1 - diff[k]]), ISum(diff)>>
+PairTalliesAreProductTallies == \A S \in SUBSET Qubits : \A T \in SUBSET Qubits :
+   /\ PairTallyMech(S, T) = PairTallyDef(S, T)
+   /\ PairTallyDef(S, T) = ParityTally(SymDiff(S, T))                      \* NOT the union of the supports
+   /\ PairTallyDef(S, T) = PairTallyDef(T, S) /\ PairTallyDef(S, S) = <<N, 0>>
 MeanFromTallies == N >= 1 => \A S \in SUBSET Qubits : MeanEig(S) = RNorm(ParityTally(S)[1] - ParityTally(S)[2], N)
 
 \* ---- expectation values recomputed from parity tallies (get_expectation_values_from_parities) -------------------
@@ -91,6 +100,7 @@ EmitStats == IF ~Emitting \/ N = 0 THEN TRUE ELSE
                  covb |-> IF N >= 2 THEN [i \in Idx |-> [j \in Idx |-> DefCov(i, j, N - 1)]] ELSE <<>>,
                  counts |-> [k \in 1..Len(SeenSeq) |-> [t |-> SeenSeq[k], n |-> Count(SeenSeq[k])]],
                  tallies |-> [i \in Idx |-> ParityTally(op[i].sup)],
+                 pairtallies |-> [i \in Idx |-> [j \in Idx |-> PairTallyDef(op[i].sup, op[j].sup)]],
                  fromtally |-> [i \in Idx |-> [v |-> ValueFromTally(ParityTally(op[i].sup)), p1 |-> PrecSqFromTally(ParityTally(op[i].sup)),
                                                 p60 |-> PrecSqFromTally(Scaled(ParityTally(op[i].sup), 60))]]]))
 =============================================================================
